@@ -654,6 +654,20 @@ def _nested_model(ex, F, root_key):
     ex.models["alloc::boxed::Box::<T>::new"] = m_id
 
 
+def _complete(p):
+    """a run that was not cut short by the handler: it returns Ok(()), or hands back the answer of its LAST handler call / nested visit as it is
+    (tail call) - no earlier answer was an Err"""
+    from ..symex import bare
+    r = bare(p.ret)
+    if r.startswith("Result::Ok"):
+        return True
+    if r.startswith("Result::Err"):
+        return False
+    stopped = [v for t, v in p.pc if re.match(r"^discr\((call_mut|call|call_once|visit_validation)\(", bare(t)) and v == 1]
+    return not stopped and bool(re.match(r"^(call_mut|call|call_once|visit_validation)\(", r))
+
+
+
 def wrap_tables(rep, F):
     """R14.9: the collection types on three abstract members (member list unrolled exactly).  Each member is either valid or has one abstract
     defect; the defect of member j must reach the caller's handler wrapped as Invalid<Member>(GeometryIndex(j), that defect) - the index names
@@ -720,7 +734,7 @@ def wrap_tables(rep, F):
                     break
             if bad:
                 break
-            if bare(p.ret).startswith("Result::Ok"):
+            if _complete(p):
                 for j in range(K):
                     if j in invalid:
                         continue
@@ -822,8 +836,21 @@ def small_tables(rep, F):
                 break
             atoms = [(bare(t), v) for t, v in p.pc]
             val = {}
+            fin = {}
             for b, v in atoms:
                 if re.match(r"^discr\((call_mut|call|call_once)\(", b):
+                    continue
+                # the same checks written out: c_j == c_i / c_i != c_j, and the finiteness test of a coordinate inlined per axis
+                m = re.match(r"^\(opaque\(c(\d)\) (==|!=) opaque\(c(\d)\)\)$", b) or re.match(r"^(?:eq|ne)\(&?opaque\(c(\d)\), &?opaque\(c(\d)\)\)$", b)
+                if m:
+                    g = m.groups()
+                    i_, j_ = sorted((int(g[0]), int(g[-1])))
+                    neg = ("!=" in g) or b.startswith("ne(")
+                    b = "(opaque(c%d) == opaque(c%d))" % (i_, j_)
+                    v = (1 - v) if neg else v
+                m = re.match(r"^is_finite\(opaque\(c(\d)\)\.(x|y)\)$", b)
+                if m:
+                    fin[(int(m.group(1)), m.group(2))] = bool(v)
                     continue
                 hit = [r for r in allre if re.match(r, b)]
                 if not hit:
@@ -833,11 +860,17 @@ def small_tables(rep, F):
                     val[r] = bool(v)
             if bad:
                 break
+            for i_ in {k[0] for k in fin}:
+                fx, fy = fin.get((i_, "x")), fin.get((i_, "y"))
+                if fx is False or fy is False:
+                    val[NF(i_)] = True
+                elif fx is True and fy is True:
+                    val[NF(i_)] = False
             got = []
             for err in _handler_events(p):
                 idx = tuple(int(x) for x in re.findall(r"CoordIndex::CoordIndex\((\d+)\)", bare(err)))
                 got.append((err[2], idx))
-            if not bare(p.ret).startswith("Result::Ok"):
+            if not _complete(p):
                 # an interrupted run: what was reported so far must still be justified by its check
                 for var, idx in got:
                     spec = [e for e in errors if e[0] == var and e[1] == idx]
